@@ -241,15 +241,17 @@ func (s *supARFO) childTerminated(name gen.Atom, pid gen.PID, reason error) supA
 			}
 
 		} else {
-			if len(s.wait) > 0 {
-				// must be 0
-				panic(gen.ErrInternal)
-			}
-
 			if specI < s.restartI {
 				// terminated child is not among we are waiting for termination.
 				// update the position
 				s.restartI = specI
+			}
+
+			if len(s.wait) > 0 {
+				// it was not the child we are waiting for (terminated by itself).
+				// keep waiting
+				action.do = supActionTerminateChildren
+				return action
 			}
 
 			terminate := s.childrenForTermination()
